@@ -84,7 +84,8 @@ fn check(scn: &Scenario, rep: &mut Report) {
     rep.add("clients_with_stray_terminators", scn.conns.iter().filter(|c| !c.stray.is_empty()).count() as u64);
     rep.add("oneway_calls", scn.conns.iter().flat_map(|c| c.calls.iter()).filter(|c| c.oneway).count() as u64);
     let mut stats = std::collections::BTreeMap::new();
-    let vs = check_reference("C08", scn, &out, &mut stats);
+    let mut vs = check_reference("C08", scn, &out, &mut stats);
+    vs.extend(reply_latency("C08", scn, &out, &mut stats));
     for (k, n) in stats {
         rep.add(&k, n);
     }
